@@ -853,12 +853,14 @@ def alias_spellings(p, rng):
         if rules:
             r = rng.choice(rules)
             v = r.pop("shareable", None)
-            r["sharable"] = False if v is None or rng.random() < 0.7 else v
+            r["sharable"] = r["shareable"] = False if v is None or rng.random() < 0.7 else v
+            r["_alias"] = ["sharable"]
     elif how == "buildable":
         ctxs = [c for c in (root.get("contexts") or []) if c.get("name") != "default" and "is_builder" not in c]
         if ctxs:
             c = rng.choice(ctxs)
-            c["buildable"] = True
+            c["buildable"] = c["is_builder"] = True
+            c["_alias"] = ["buildable"]
             a = p.setdefault("args", {})
             if a.get("builders") is not None and rng.random() < 0.5:
                 a["builders"] = list(a["builders"]) + [c["name"]]
@@ -866,7 +868,8 @@ def alias_spellings(p, rng):
         mods = [m for k, m, path, d in _modules(p) if m.get("conflicts")]
         if mods:
             m = rng.choice(mods)
-            m["disables"] = m.pop("conflicts")
+            m["disables"] = m["conflicts"]
+            m["_alias"] = ["disables"]
 
 
 def root_context_disables(p, rng):
@@ -969,7 +972,31 @@ def global_deps_chain(p, rng):
         a["depends"] = list(a.get("depends") or []) + [rng.choice(["gconfig", "gsdk", "gconfig"])]
 
 
-SHAPES += [("p_uses_removal_marker", uses_removal_marker), ("p_suffix_ext_rules", suffix_ext_rules), ("p_srcdir_dot", srcdir_dot),
+def same_source_two_spellings(p, rng):
+    """one source file compiled by two modules under two spellings of its path (`x.c` and `./x.c`, `d/../x.c`): ninja compares
+    canonical paths, so the two object files are ONE output"""
+    root = _root(p)
+    cands = [m for m in root.get("modules") or [] if "srcdir" not in m and not m.get("download") and not m.get("build")
+             and any(isinstance(x, str) and x.endswith(".c") for x in m.get("sources") or [])]
+    apps = [a for k, a, path, d in _modules(p, ("apps",))]
+    if not cands or not apps:
+        return
+    m = rng.choice(cands)
+    src = next(x for x in m["sources"] if isinstance(x, str) and x.endswith(".c"))
+    how = rng.choice(["srcdir-dot", "srcdir-dot", "source-dot", "updown"])
+    twin = {"name": m["name"] + "_twin", "sources": [src]}
+    if how == "srcdir-dot":
+        twin["srcdir"] = rng.choice([".", "./"])
+    elif how == "source-dot":
+        twin["sources"] = ["./" + src]
+    else:
+        twin["sources"] = ["tw/../" + src]
+    root["modules"].append(twin)
+    a = rng.choice(apps)
+    a["depends"] = list(a.get("depends") or []) + [m["name"], twin["name"]]
+
+
+SHAPES += [("p_same_source_two_spellings", same_source_two_spellings), ("p_uses_removal_marker", uses_removal_marker), ("p_suffix_ext_rules", suffix_ext_rules), ("p_srcdir_dot", srcdir_dot),
            ("p_module_sets_builtin_var", module_sets_builtin_var), ("p_context_prefixed_module", context_prefixed_module),
            ("p_alias_spellings", alias_spellings), ("p_root_context_disables", root_context_disables), ("p_escaped_early_var", escaped_early_var),
            ("p_dup_context_list", dup_context_list), ("p_empty_task_map", empty_task_map), ("p_download_not_build_dep", download_not_build_dep),
